@@ -209,6 +209,9 @@ S('rv_ops_k2', 'reusable/rv.cpp', {'assert': 'C12'}, defs=['VF_K=2'], extra=RVX,
 S('rv_ops_k3', 'reusable/rv.cpp', {'assert': 'C12'}, defs=['VF_K=3'], extra=RVX, models=['sc'], bound=10)
 S('rv_ops_k3_prefilled', 'reusable/rv.cpp', {'assert': 'C12'}, defs=['VF_K=2', 'VF_INIT=v->push_back(7); v->push_back(8); v->push_back(9); ref[0]=7; ref[1]=8; ref[2]=9; rn=3'], extra=RVX, models=['sc'], bound=10)
 
+# ----------------------------------------------------------------------------------------------- C19: counters / thread locals (sequential thread generations)
+S('cnt_generations', 'counter/cnt.cpp', {'assert': 'C19'}, extra=['babylon/concurrent/counter.cpp'], models=['sc'], bound=12)
+
 # ----------------------------------------------------------------------------------------------- manifest texts
 LEVEL_TEXT = {
  'C01': 'Real ConcurrentBoundedQueue<two-word payload, VS> IR; client programs of 2-4 threads mixing push/pop/try_/push_n/pop_n/callback variants on capacities 1-2; oracle = exactly-once multiset, per-thread FIFO, fully published payload, try_ success when sequenced after enough completed operations.',
